@@ -585,6 +585,7 @@ def RESULT_MARKERS(results):
 
 @contract(_G + "_create_result_string", props=["C07", "C20", "C02", "C09"])
 class create_result_string:
+    deductive = False
     params = {"function_results": "list[Result]"}
     modifies = ["self._current_todo_msgs", "self.module_imports", "self.classes_outside_package"]
     safety = False
@@ -654,6 +655,8 @@ def _node_kind(node):
 
 @contract(_G + "_create_sds_docstring", props=["C13", "C02", "C09"])
 class create_sds_docstring:
+    deductive = False
+    params = {"docstring": "ClassDocstring | FunctionDocstring | AttributeDocstring", "indentations": "str", "node": "Class | Function | None"}
     safety = False
     modifies = []
 
@@ -710,6 +713,8 @@ def STRIP_FREE(text):
 
 @contract(_G + "_create_function_string", props=["C03", "C06", "C07", "C09", "C20", "C02", "C13"])
 class create_function_string:
+    deductive = False
+    params = {"function": "Function", "indentations": "str", "is_method": "bool", "in_reexport_module": "bool"}
     safety = False
     modifies = ["self._current_todo_msgs", "self.module_imports", "self.classes_outside_package", "self.reexport_modules",
                 "function.name"]
@@ -748,6 +753,8 @@ def PROPERTY_TEXT(gen, pending_before, function, indent):
 
 @contract(_G + "_create_property_function_string", props=["C03", "C09", "C20", "C02", "C13", "C05"])
 class create_property_function_string:
+    deductive = False
+    params = {"function": "Function", "indentations": "str"}
     safety = False
     modifies = ["self._current_todo_msgs", "self.module_imports", "self.classes_outside_package"]
 
@@ -775,6 +782,8 @@ def SHOWN_ATTRIBUTES(attributes):
 
 @contract(_G + "_create_class_attribute_string", props=["C03", "C04", "C09", "C20", "C02", "C05"])
 class create_class_attribute_string:
+    deductive = False
+    params = {"attributes": "list[Attribute]", "inner_indentations": "str"}
     safety = False
     modifies = ["self._current_todo_msgs", "self.module_imports", "self.classes_outside_package"]
 
@@ -804,6 +813,8 @@ def ENUM_TEXT(gen, e):
 
 @contract(_G + "_create_enum_string", props=["C03", "C09", "C02", "C13"])
 class create_enum_string:
+    deductive = False
+    params = {"enum_data": "Enum"}
     safety = False
     modifies = []
 
@@ -823,6 +834,7 @@ def IMPORTS_TEXT(nc, imports):
 
 @contract(_G + "_create_imports_string", props=["C11", "C08", "C02", "C09"])
 class create_imports_string:
+    deductive = False
     safety = False
     modifies = []
 
